@@ -103,6 +103,22 @@ def build_mesh(script):
     per = {}
     for blk, g, kw in script["chops"]:
         per.setdefault((blk, g), []).append(kw)
+    if script.get("rechop"):
+        # the script first chops every direction of every block with other numbers and then replaces them, axis by
+        # axis: unchop(axis) followed by the chops that count (or by nothing)
+        for op in ops.values():
+            for a in range(3):
+                op.chop(a, count=7)
+        local = {}
+        for (blk, g), kws in per.items():
+            a, sign = local_axis_of(script, blk, g)
+            local[(blk, a)] = [invert_kwargs(k) for k in reversed(kws)] if sign < 0 else kws
+        for blk, op in ops.items():
+            for a in range(3):
+                op.unchop(a)
+                for kw in local.get((blk, a), []):
+                    op.chop(a, **kw)
+        per = {}
     for (blk, g), kws in per.items():
         a, sign = local_axis_of(script, blk, g)
         if sign < 0:
